@@ -35,9 +35,9 @@ type Fam struct {
 
 var fams = map[string]*Fam{
 	"I": {Name: "I", Parts: []string{"K"}, Types: []string{"uint"},
-		Mod: map[string]interface{}{"P": IP{}, "O": IO{}, "M": IM{}, "T": IT{}, "G": IG{}, "N": IN{}}},
+		Mod: map[string]interface{}{"P": IP{}, "O": IO{}, "M": IM{}, "T": IT{}, "G": IG{}, "N": IN{}, "L": IL{}, "C": IC{}, "U": IU{}}},
 	"S": {Name: "S", Parts: []string{"K"}, Types: []string{"str"},
-		Mod: map[string]interface{}{"P": SP{}, "O": SO{}, "M": SM{}, "T": ST{}, "G": SG{}, "N": SN{}}},
+		Mod: map[string]interface{}{"P": SP{}, "O": SO{}, "M": SM{}, "T": ST{}, "G": SG{}, "N": SN{}, "L": SL{}, "C": SC{}, "U": SU{}}},
 	"C": {Name: "C", Parts: []string{"A", "B"}, Types: []string{"str", "str"},
 		Mod: map[string]interface{}{"P": CP{}, "O": CO{}, "M": CM{}, "T": CT{}, "G": CG{}}},
 	"M": {Name: "M", Parts: []string{"N", "S"}, Types: []string{"int", "str"},
@@ -56,6 +56,7 @@ type Rel struct {
 	Single bool
 	M2M    bool
 	PF, CF []string // Go field names (parent side, child side)
+	KT     []string // key part types when they are not the family's (keys overridden by tags)
 	PPtr   bool
 	CPtr   bool
 	Poly   string
@@ -93,13 +94,30 @@ func (f *Fam) rels() map[string]Rel {
 	if _, ok := f.Mod["N"]; ok {
 		m["Notes"] = Rel{Name: "Notes", Kind: "polymorphic", On: "P", Child: "N", PF: f.Parts, CF: []string{"OwnerID"}, CPtr: true, Poly: "xp"}
 	}
+	if _, ok := f.Mod["L"]; ok { // keys overridden by tags: the owner side is the non-primary field Code
+		st := []string{"str"}
+		m["Labels"] = Rel{Name: "Labels", Kind: "polymorphic_fk_tag", On: "P", Child: "L", PF: []string{"Code"}, CF: []string{"OwnerID"}, KT: st, CPtr: true, Poly: "xp"}
+		m["Cover"] = Rel{Name: "Cover", Kind: "polymorphic_has_one_fk_tag", On: "P", Child: "C", Single: true, PF: []string{"Code"}, CF: []string{"OwnerID"}, KT: st, CPtr: true, Poly: "xp"}
+		m["Subs"] = Rel{Name: "Subs", Kind: "has_many_references_tag", On: "P", Child: "U", PF: []string{"Code"}, CF: []string{"PCode"}, KT: st, CPtr: true}
+	}
 	return m
+}
+
+// key part types of a relation
+func (f *Fam) kt(r Rel) []string {
+	if r.KT != nil {
+		return r.KT
+	}
+	return f.Types
 }
 
 func (f *Fam) relNamesOnP() []string {
 	out := []string{"One", "Many", "Target", "Tags", "Boss", "Team"}
 	if _, ok := f.Mod["N"]; ok {
 		out = append(out, "Notes")
+	}
+	if _, ok := f.Mod["L"]; ok {
+		out = append(out, "Labels", "Cover", "Subs")
 	}
 	return out
 }
@@ -114,7 +132,21 @@ func (f *Fam) nestedOf(first string) []string {
 		if _, ok := f.Mod["N"]; ok {
 			out = append(out, "Notes")
 		}
+		if _, ok := f.Mod["L"]; ok {
+			out = append(out, "Labels", "Cover", "Subs")
+		}
 		return out
+	}
+	return nil
+}
+
+// third hops available below a second hop (the third hop may be many2many)
+func (f *Fam) nestedOf2(second string) []string {
+	switch second {
+	case "Many":
+		return []string{"Owner"}
+	case "Team", "Boss", "Owner":
+		return append(f.nestedOf("Team"), "Tags")
 	}
 	return nil
 }
@@ -191,6 +223,7 @@ type Input struct {
 	Rel      string           `json:"rel"`
 	Mode     string           `json:"mode"` // preload | joins | assoc
 	Nested   string           `json:"nested,omitempty"`
+	Nested2  string           `json:"nested2,omitempty"` // third segment of the path Rel.Nested.Nested2
 	AllAssoc bool             `json:"all_assoc,omitempty"`
 	Cond     Cond             `json:"cond"`
 	Cond2    Cond             `json:"cond2"`
@@ -449,6 +482,11 @@ func (e *Env) load(f *Fam, in Input) {
 		for _, r := range rows {
 			var cols []string
 			var args []interface{}
+			if _, ok := f.Mod["L"]; ok && m == "P" {
+				if _, has := r.F["Code"]; !has {
+					r.F["Code"] = VS(fmt.Sprint("code-", *r.F["UID"].I))
+				}
+			}
 			names := make([]string, 0, len(r.F))
 			for k := range r.F {
 				names = append(names, k)
@@ -484,7 +522,10 @@ func typOf(f *Fam, i int) string { return f.Types[i] }
 
 // dump reads the child table of rel by raw SQL: uid, matched columns, v, deleted, type, and the
 // columns key2F (parent-side columns of a following hop), in rowid order.
-func (e *Env) dump(f *Fam, rel Rel, key2F []string, key2Ptr bool) []ChildRow {
+func (e *Env) dump(f *Fam, rel Rel, key2F []string, key2Ptr bool, key2T ...string) []ChildRow {
+	if len(key2T) == 0 {
+		key2T = f.Types
+	}
 	tbl := f.table(e.db, rel.Child)
 	cols := []string{"uid", "v", "deleted_at IS NOT NULL"}
 	if rel.Poly != "" {
@@ -517,14 +558,10 @@ func (e *Env) dump(f *Fam, rel Rel, key2F []string, key2Ptr bool) []ChildRow {
 			c.Ty = string(t)
 		}
 		for i := range rel.CF {
-			typ := "str"
-			if len(rel.CF) == len(f.Types) {
-				typ = typOf(f, i)
-			}
-			c.Key = append(c.Key, kpOfRaw(typ, rel.CPtr, raw[4+i]))
+			c.Key = append(c.Key, kpOfRaw(f.kt(rel)[i], rel.CPtr, raw[4+i]))
 		}
 		for i := range key2F {
-			c.Key2 = append(c.Key2, kpOfRaw(typOf(f, i), key2Ptr, raw[4+len(rel.CF)+i]))
+			c.Key2 = append(c.Key2, kpOfRaw(key2T[i], key2Ptr, raw[4+len(rel.CF)+i]))
 		}
 		out = append(out, c)
 	}
@@ -572,6 +609,15 @@ func condArgs(c Cond) []interface{} {
 		return []interface{}{func(db *gorm.DB) *gorm.DB { return db.Where(q, args...) }}
 	}
 	return append([]interface{}{q}, args...)
+}
+
+// nestedPath: "Rel.Nested" or "Rel.Nested.Nested2"; the conditions (Cond2) belong to the LAST segment.
+func nestedPath(in Input) string {
+	p := in.Rel + "." + in.Nested
+	if in.Nested2 != "" {
+		p += "." + in.Nested2
+	}
+	return p
 }
 
 func uidOf(v reflect.Value) int64 { return reflect.Indirect(v).FieldByName("UID").Int() }
@@ -683,7 +729,7 @@ func (e *Env) run(in Input) []Obs {
 			obsRels = []string{rel.Name}
 		}
 		if in.Nested != "" {
-			tx = tx.Preload(rel.Name+"."+in.Nested, condArgs(in.Cond2)...)
+			tx = tx.Preload(nestedPath(in), condArgs(in.Cond2)...)
 		}
 	case "joins":
 		// ON conditions are passed as a *gorm.DB (Joins("Rel", db.Where(...))); the joined table's
@@ -703,7 +749,7 @@ func (e *Env) run(in Input) []Obs {
 			tx = tx.Joins(rel.Name, jargs...)
 		}
 		if in.Nested != "" {
-			tx = tx.Preload(rel.Name+"."+in.Nested, condArgs(in.Cond2)...)
+			tx = tx.Preload(nestedPath(in), condArgs(in.Cond2)...)
 		}
 		obsRels = []string{rel.Name}
 	case "assoc":
@@ -779,18 +825,22 @@ func (e *Env) run(in Input) []Obs {
 		var key2Ptr bool
 		var r2 Rel
 		nested := in.Nested != "" && rn == rel.Name
+		cond2 := in.Cond2
+		if in.Nested2 != "" {
+			cond2 = Cond{Kind: "all"} // the conditions go to the third segment
+		}
 		if nested {
 			r2 = rels[in.Nested]
 			key2F, key2Ptr = r2.PF, r2.PPtr
 		}
-		o.children = e.dump(f, r, key2F, key2Ptr)
+		o.children = e.dump(f, r, key2F, key2Ptr, f.kt(r2)...)
 		if r.M2M {
 			o.joins = e.dumpJoins(f, r)
 		}
 		o.PKeys = printable(o.Parents)
 		if nested && in.Mode == "preload" {
 			o.Nested = true
-			o.hop2 = Hop{Single: r2.Single, Cond: in.Cond2, Unscoped: in.Unscoped, Poly: r2.Poly}
+			o.hop2 = Hop{Single: r2.Single, Cond: cond2, Unscoped: in.Unscoped, Poly: r2.Poly}
 			o.child2 = e.dump(f, r2, nil, false)
 			seen := map[int64]int{}
 			for _, c := range lvl1 {
@@ -810,7 +860,7 @@ func (e *Env) run(in Input) []Obs {
 		if nested && in.Mode == "joins" {
 			// Joins(A).Preload(A.B): preloadEntryPoint runs hop B on the joined A objects
 			o2 := Obs{Rel: rn + "." + r2.Name, Mode: "MPreload", M2M: false, Err: code, ErrText: etext,
-				hop: Hop{Single: r2.Single, Cond: in.Cond2, Unscoped: in.Unscoped, Poly: r2.Poly}, hop2: Hop{Cond: Cond{Kind: "all"}}}
+				hop: Hop{Single: r2.Single, Cond: cond2, Unscoped: in.Unscoped, Poly: r2.Poly}, hop2: Hop{Cond: Cond{Kind: "all"}}}
 			for _, c := range lvl1 {
 				o2.Parents = append(o2.Parents, keyOfObj(c, r2.PF))
 				ids, _ := attached(c, r2.Name)
@@ -822,6 +872,29 @@ func (e *Env) run(in Input) []Obs {
 			o2.children = e.dump(f, r2, nil, false)
 			o2.PKeys = printable(o2.Parents)
 			out = append(out, o2)
+		}
+		if nested && in.Nested2 != "" {
+			// third segment: hop Nested2 runs on the rows loaded for the second segment
+			r3 := rels[in.Nested2]
+			o3 := Obs{Rel: rn + "." + r2.Name + "." + r3.Name, Mode: "MPreload", M2M: r3.M2M, Err: code, ErrText: etext,
+				hop: Hop{Single: r3.Single, Cond: in.Cond2, Unscoped: in.Unscoped, Poly: r3.Poly}, hop2: Hop{Cond: Cond{Kind: "all"}}}
+			for _, c1 := range lvl1 {
+				_, lvl2 := attached(c1, r2.Name)
+				for _, c2 := range lvl2 {
+					o3.Parents = append(o3.Parents, keyOfObj(c2, r3.PF))
+					ids, _ := attached(c2, r3.Name)
+					o3.Att = append(o3.Att, ids)
+				}
+			}
+			if o3.Att == nil {
+				o3.Att = [][]int64{}
+			}
+			o3.children = e.dump(f, r3, nil, false)
+			if r3.M2M {
+				o3.joins = e.dumpJoins(f, r3)
+			}
+			o3.PKeys = printable(o3.Parents)
+			out = append(out, o3)
 		}
 	}
 	return out
@@ -856,7 +929,7 @@ func rowsKeys(f *Fam, rows []Row, flds []string, ptr bool, raw bool) [][]KP {
 		for i, fl := range flds {
 			v := r.F[fl]
 			typ := "str"
-			if len(flds) == len(f.Types) {
+			if len(flds) == len(f.Types) && v.S == nil {
 				typ = f.Types[i]
 			}
 			k[i] = kpOfRaw(typ, ptr, v.arg())
@@ -1131,9 +1204,21 @@ func genInput(r *lib.Rng, edge bool) Input {
 		in.Dup = r.Chance(1, 6)
 	}
 	if in.Mode == "joins" {
-		if ns := f.nestedOf(in.Rel); len(ns) > 0 && r.Chance(1, 3) {
+		if ns := f.nestedOf(in.Rel); len(ns) > 0 && r.Chance(1, 2) {
 			in.Nested = lib.Pick(r, ns)
 			in.Cond2 = genCond()
+		}
+	}
+	if in.Nested != "" {
+		// self-referential relations are walked repeatedly: Boss.Boss.X, Team.Team.Team, ...
+		if (in.Rel == "Boss" || in.Rel == "Team") && r.Chance(1, 3) {
+			in.Nested = in.Rel
+		}
+		if ns := f.nestedOf2(in.Nested); len(ns) > 0 && r.Chance(1, 2) {
+			in.Nested2 = lib.Pick(r, ns)
+			if in.Nested == in.Rel && r.Chance(1, 3) {
+				in.Nested2 = in.Rel
+			}
 		}
 	}
 	if in.Mode == "assoc" && in.Cond.As == "scope" {
@@ -1221,6 +1306,60 @@ func genInput(r *lib.Rng, edge bool) Input {
 			in.Tables["N"] = append(in.Tables["N"], row)
 		}
 	}
+	if _, ok := f.Mod["L"]; ok {
+		// relations keyed by the NON-primary field Code (keys overridden by tags): codes are distinct
+		// strings, some of which read like the primary keys of OTHER parents
+		codePool := append([]string{"1", "2", "3", "4", "5", "6", "7"}, strPool...)
+		for _, k := range pk {
+			if k[0].S != nil {
+				codePool = append(codePool, *k[0].S, *k[0].S)
+			}
+		}
+		var codes [][]Val
+		for i := range in.Tables["P"] {
+			c := []Val{VS(fmt.Sprint("c", i))}
+			for tries := 0; tries < 10; tries++ {
+				if t := []Val{VS(lib.Pick(r, codePool))}; !hasTuple(codes, t) && *t[0].S != "" {
+					c = t
+					break
+				}
+			}
+			codes = append(codes, c)
+			in.Tables["P"][i].F["Code"] = c[0]
+		}
+		var strays [][]Val
+		for i := 0; i < 3; i++ {
+			strays = append(strays, []Val{VS(lib.Pick(r, codePool))})
+		}
+		var usedC [][]Val
+		for i, n := 0, r.Range(1, 8); i < n; i++ {
+			row := base()
+			row.F["ID"] = VI(uid)
+			row.F["OwnerID"] = fkChoice(r, codes, strays, 1, 70, 12, 18)[0]
+			row.F["OwnerType"] = VS(lib.Pick(r, []string{"xp", "xp", "xp", "other"}))
+			in.Tables["L"] = append(in.Tables["L"], row)
+		}
+		for i, n := 0, r.Range(1, 6); i < n; i++ {
+			fk := fkChoice(r, codes, strays, 1, 70, 12, 18)
+			if !fk[0].Null {
+				if hasTuple(usedC, fk) {
+					continue
+				}
+				usedC = append(usedC, fk)
+			}
+			row := base()
+			row.F["ID"] = VI(uid)
+			row.F["OwnerID"] = fk[0]
+			row.F["OwnerType"] = VS("xp")
+			in.Tables["C"] = append(in.Tables["C"], row)
+		}
+		for i, n := 0, r.Range(1, 8); i < n; i++ {
+			row := base()
+			row.F["ID"] = VI(uid)
+			row.F["PCode"] = fkChoice(r, codes, strays, 1, 70, 12, 18)[0]
+			in.Tables["U"] = append(in.Tables["U"], row)
+		}
+	}
 	var jseen [][]Val
 	tags := rels["Tags"]
 	for i, n := 0, r.Range(1, 10); i < n; i++ {
@@ -1269,7 +1408,7 @@ func genInput(r *lib.Rng, edge bool) Input {
 	return in
 }
 
-// targetedInputs: a small deterministic stream run in EVERY tier.
+// targetedInputs: a small deterministic stream run in EVERY tier ((a)-(d) below).
 //
 //	(a) a parent held as a single STRUCT (and as slices, for contrast) whose composite key has a zero
 //	    LAST part ("" or 0) next to a sibling with the same first part: has one, has many, belongs to,
@@ -1381,6 +1520,96 @@ func targetedInputs() []Input {
 			}
 		}
 	}
+	// (c) joined + nested preload with nil joined parents in every position, and self-referential
+	//     paths of depth 3 (Boss.Boss.X, Team.Team.Team): a reporting forest
+	//     p0 <- p1 <- p3 <- p6, p0 <- p4, p2 and p5 without boss
+	for _, fam := range []string{"I", "C", "R"} {
+		f := fams[fam]
+		key := func(i int) []Val {
+			t := make([]Val, len(f.Types))
+			for j, ty := range f.Types {
+				if ty == "str" {
+					t[j] = VS(fmt.Sprint("n", i, j))
+				} else {
+					t[j] = VI(int64(i + 1))
+				}
+			}
+			return t
+		}
+		null := make([]Val, len(f.Parts))
+		for i := range null {
+			null[i] = VNull
+		}
+		boss := []int{-1, 0, -1, 1, 0, -1, 3}
+		var ps, ms, os []Row
+		for i, b := range boss {
+			p := Row{F: map[string]Val{"UID": VI(int64(101 + i)), "V": VI(int64(i))}}
+			setKey(&p, f.Parts, key(i))
+			setKey(&p, pre("T", f.Parts), null)
+			setKey(&p, pre("B", f.Parts), null)
+			if b >= 0 {
+				setKey(&p, pre("B", f.Parts), key(b))
+			}
+			ps = append(ps, p)
+			for j := 0; j < 1+i%2; j++ {
+				m := Row{F: map[string]Val{"UID": VI(int64(201 + 10*i + j)), "ID": VI(int64(201 + 10*i + j)), "V": VI(int64(j))}}
+				setKey(&m, pre("P", f.Parts), key(i))
+				ms = append(ms, m)
+			}
+			o := Row{F: map[string]Val{"UID": VI(int64(301 + i)), "ID": VI(int64(301 + i)), "V": VI(3)}}
+			setKey(&o, pre("P", f.Parts), key(i))
+			os = append(os, o)
+		}
+		tables := map[string][]Row{"P": ps, "M": ms, "O": os}
+		all := Cond{Kind: "all"}
+		for _, sh := range []string{"slice", "ptrs"} {
+			for _, n1 := range []string{"Many", "One", "Team", "Boss"} {
+				out = append(out, Input{Fam: fam, Rel: "Boss", Mode: "joins", Shape: sh, Nested: n1, Cond: all, Cond2: all, Tables: tables})
+				out = append(out, Input{Fam: fam, Rel: "Boss", Mode: "joins", Shape: sh, Nested: "Boss", Nested2: n1, Cond: all, Cond2: all, Tables: tables})
+				out = append(out, Input{Fam: fam, Rel: "Boss", Mode: "preload", Shape: sh, Nested: "Boss", Nested2: n1, Cond: all, Cond2: all, Tables: tables})
+				out = append(out, Input{Fam: fam, Rel: "Team", Mode: "preload", Shape: sh, Nested: "Team", Nested2: n1, Cond: all, Cond2: all, Tables: tables})
+			}
+		}
+		out = append(out, Input{Fam: fam, Rel: "Many", Mode: "preload", Shape: "slice", Nested: "Owner", Nested2: "Many", Cond: all, Cond2: all, Tables: tables})
+	}
+	// (d) relations whose keys are overridden by tags: polymorphic has many / has one with
+	//     `foreignKey:Code` and has many with `references:Code`, where a parent's Code reads like the
+	//     primary key of ANOTHER parent
+	for _, fam := range []string{"I", "S"} {
+		f := fams[fam]
+		pk := func(i int) Val {
+			if f.Types[0] == "str" {
+				return VS(fmt.Sprint(i))
+			}
+			return VI(int64(i))
+		}
+		codes := []string{"2", "1", "x_3", "nil"}
+		var ps, ls, cs, us []Row
+		for i, c := range codes {
+			p := Row{F: map[string]Val{"UID": VI(int64(101 + i)), "V": VI(int64(i)), "K": pk(i + 1), "TK": VNull, "BK": VNull, "Code": VS(c)}}
+			ps = append(ps, p)
+			for j := 0; j < 1+i%2; j++ {
+				id := int64(201 + 10*i + j)
+				ls = append(ls, Row{F: map[string]Val{"UID": VI(id), "ID": VI(id), "V": VI(int64(j)), "OwnerID": VS(c), "OwnerType": VS("xp")}})
+				us = append(us, Row{F: map[string]Val{"UID": VI(id + 300), "ID": VI(id + 300), "V": VI(int64(j)), "PCode": VS(c)}})
+			}
+			cs = append(cs, Row{F: map[string]Val{"UID": VI(int64(401 + i)), "ID": VI(int64(401 + i)), "V": VI(1), "OwnerID": VS(c), "OwnerType": VS("xp")}})
+		}
+		ls = append(ls, Row{F: map[string]Val{"UID": VI(299), "ID": VI(299), "V": VI(1), "OwnerID": VS("2"), "OwnerType": VS("other")}})
+		tables := map[string][]Row{"P": ps, "L": ls, "C": cs, "U": us}
+		all := Cond{Kind: "all"}
+		for _, rel := range []string{"Labels", "Cover", "Subs"} {
+			for _, sh := range []string{"slice", "ptrs", "struct"} {
+				var sub []int64
+				if sh == "struct" {
+					sub = []int64{101}
+				}
+				out = append(out, Input{Fam: fam, Rel: rel, Mode: "preload", Shape: sh, Subset: sub, Cond: all, Cond2: all, Tables: tables})
+				out = append(out, Input{Fam: fam, Rel: rel, Mode: "assoc", Shape: sh, Subset: sub, Cond: all, Cond2: all, Tables: tables})
+			}
+		}
+		out = append(out, Input{Fam: fam, Rel: "Cover", Mode: "joins", Shape: "slice", Cond: all, Cond2: all, Tables: tables})
+	}
 	return out
 }
 
@@ -1449,7 +1678,7 @@ func shapeOf(in Input) string {
 	fl := []byte(flags)
 	sort.Slice(fl, func(i, j int) bool { return fl[i] < fl[j] })
 	return fmt.Sprintf("%s.%s|%s|inner=%v|n=%s|all=%v|c=%s%s,%s%s|u=%v|%s|dup=%v|sub=%d|P%d,O%d,M%d,T%d,G%d,N%d,J%d|%s",
-		in.Fam, in.Rel, in.Mode, in.Inner, in.Nested, in.AllAssoc, in.Cond.Kind, in.Cond.As, in.Cond2.Kind, in.Cond2.As, in.Unscoped,
+		in.Fam, in.Rel, in.Mode, in.Inner, in.Nested+"."+in.Nested2, in.AllAssoc, in.Cond.Kind, in.Cond.As, in.Cond2.Kind, in.Cond2.As, in.Unscoped,
 		in.Shape, in.Dup, len(in.Subset), n("P"), n("O"), n("M"), n("T"), n("G"), n("N"), n("J"), string(fl))
 }
 
@@ -1471,7 +1700,7 @@ func main() {
 	lib.Must(err)
 	for _, fn := range famNames {
 		f := fams[fn]
-		for _, m := range []string{"T", "G", "P", "O", "M", "N"} {
+		for _, m := range []string{"T", "G", "P", "O", "M", "N", "L", "C", "U"} {
 			if mod, ok := f.Mod[m]; ok {
 				lib.Must(db.AutoMigrate(reflect.New(reflect.TypeOf(mod)).Interface()))
 			}
